@@ -183,6 +183,12 @@ func (c *NoiseGrpcConn) ClientHandshake(_ context.Context, _ string,
 	}
 	c.ProxyConn = transportConn
 
+	// Plaintext that was decrypted on the previous connection but not yet
+	// handed out belongs to that connection, not to this one.
+	c.nextMsgMtx.Lock()
+	c.nextMsg = nil
+	c.nextMsgMtx.Unlock()
+
 	// First, initialize a new noise machine with our static long term, and
 	// passphraseEntropy.
 	var err error
@@ -243,6 +249,12 @@ func (c *NoiseGrpcConn) ServerHandshake(conn net.Conn) (net.Conn,
 		return nil, nil, fmt.Errorf("invalid connection type")
 	}
 	c.ProxyConn = transportConn
+
+	// Plaintext that was decrypted on the previous connection but not yet
+	// handed out belongs to that connection, not to this one.
+	c.nextMsgMtx.Lock()
+	c.nextMsg = nil
+	c.nextMsgMtx.Unlock()
 
 	// First, we'll initialize a new state machine with our static key,
 	// remote static key, passphrase, and also the authentication data.
